@@ -94,3 +94,8 @@ package service
 //@   pure-effects
 //@ func MaybeYAML
 //@   ensures[C18.maybeyaml_has_newline] result == (lastIdx >= 0)
+
+// C18: a parameter that the table does not give a type is taken verbatim, whatever its text looks like (the same string must
+// arrive whether it was sent as a query parameter, in a form or in a JSON body)
+//@ func parseParameter
+//@   ensures[C18.untyped_parameter_is_taken_verbatim] !old(has(parameterTypes, p)) ==> result1 == nil && is(result0, string) && result0.(string) == v
